@@ -766,6 +766,28 @@ var blockEntries = []struct {
 		bl := new(btc.Block)
 		return bl, bl.UpdateContent(d)
 	}},
+	{"header-first-then-Raw", func(d []byte) (*btc.Block, error) {
+		// what the network code does: the Block is made from the 80 header bytes when the
+		// header arrives, the whole block is attached to Raw when it has been downloaded
+		if len(d) < 80 {
+			return btc.NewBlock(d)
+		}
+		bl, err := btc.NewBlock(append(make([]byte, 0, 80), d[:80]...))
+		if err == nil {
+			bl.Raw = d
+		}
+		return bl, err
+	}},
+	{"parsed-then-TxCount-reset", func(d []byte) (*btc.Block, error) {
+		// a second parse of the same Block (TxCount = 0 asks BuildTxListExt to read the count again)
+		bl, err := btc.NewBlock(d)
+		if err == nil {
+			if err = bl.BuildTxListExt(false); err == nil {
+				bl.TxCount = 0
+			}
+		}
+		return bl, err
+	}},
 	{"UpdateContent-on-used-Block", func(d []byte) (*btc.Block, error) {
 		bl, err := btc.NewBlock(append([]byte{}, filledBlock...))
 		if err == nil {
